@@ -40,7 +40,7 @@ CONFIG = {
     'must_sig': ['site:get_subgraph:pyModelChecking.CTL.model_checking:*',
                  'site:get_reachable_set_from:pyModelChecking.kripke:*',
                  'subgraph:dropped_edges', 'subgraph:foreign_nodes',
-                 'reach:proper'],
+                 'reach:proper', 'chain:ops'],
     'rule': ('cases = (digraph, node subset X, method); enumerated: every '
              'labelled digraph on <=3 nodes x every subset, every 4-node '
              'digraph x a rotating sample (quick) / all 16 (thorough) '
@@ -383,6 +383,19 @@ def drive(rows, order, namer, style, subsets, foreign=False):
                  (y for y in Y)][(kind + 1) % 5])
         G.get_reversed_graph()
         G.clone()
+        if n >= 2:
+            # chains of operations on derived graphs (each call is judged on
+            # the graph it is made on)
+            xm = subsets[0] if subsets else 1
+            X = [names[i] for i in range(n) if xm >> i & 1] or names[:1]
+            R = G.get_reversed_graph()
+            S = R.get_subgraph(X + names[-1:])
+            S.get_reachable_set_from([x for x in X if x in S.nodes()])
+            RR = S.get_reversed_graph().get_reversed_graph()
+            RR.get_subgraph(set(X)).clone().get_reachable_set_from(
+                [x for x in X[:1] if x in RR.nodes()])
+            G.get_reachable_set_from(X)
+            LOG.sig['chain:ops'] += 1
         if n:
             independence(G, names, rows)
     except Exception as e:
